@@ -40,6 +40,7 @@ func checkC17(c *Ctx) error {
 		r := rand.New(rand.NewSource(c.Seed*7907 + int64(i)))
 		o := gen.DefaultOpts()
 		o.HostileAlias = i%5 == 1
+		o.StdPkgs = i%3 == 0 // the packages the template imports for itself are also used by the configuration
 		conf := gen.Behaviour(r, o)
 		if i%3 == 2 {
 			gen.Inject(r, conf, gen.DefectKinds[r.Intn(len(gen.DefectKinds))], i)
